@@ -95,6 +95,7 @@ func runC18(c *Ctx) {
 	c18PathScope(c, pk)
 	c18V1ExceptPairing(c)
 	c18DisableScope(c, pk)
+	c18DisableAnyMatch(c, pk)
 	c18PerVisitState(c, pk)
 	c18AccumulatorCarry(c, pk)
 	ruleKeyInjective(c, "KEY-INJECTIVE", "private/bufpkg/bufimage/bufimagemodify/internal")
